@@ -243,7 +243,7 @@ static int print_f(void (*printchar_handler)(void *d, int c),
     char buff[PRINT_F_BUFF_SZ], *str, *end, *prefix, *postfix;
     DOUBLE ip, fp, ep;
     int pc, i, ch, len, prefix_len, postfix_len, pad_count, sign_count,
-        zero_left, letter_base;
+        zero_left, letter_base, g_digits = 0, carried = 0;
 
     if (isnan(r) || isinf(r))
     {
@@ -301,7 +301,13 @@ static int print_f(void (*printchar_handler)(void *d, int c),
             with_exp = 1;
     }
     fp = with_exp ? fp : MODF(r, &ip);
-    precision -= (int)(is_shortened ? ceill(LOG10(ip)) + (ip != 0.0L) : 0);
+    if (is_shortened)
+    {
+        /* %g: the precision P counts significant digits, i.e. P-1 fraction
+         * digits in e-style and P-1-X in f-style (X = decimal exponent) */
+        g_digits = precision;
+        precision = with_exp ? precision - 1 : precision - 1 - (int)ep;
+    }
     for (; (sign_count < precision) && (sign_count < PRINT_F_FRAC_MAX) &&
            (FMOD(fp, 1.0L) != 0.0L);
          ++sign_count)
@@ -312,7 +318,46 @@ static int print_f(void (*printchar_handler)(void *d, int c),
                    : roundl(ip + fp);
     fp = fp != POW(base, sign_count) ? fp : 0.0L;
     if (with_exp && (ip >= base))
-        fp = MODF((ip + fp) / base, &ip), ep += 1.0L;
+        fp = MODF((ip + fp) / base, &ip), ep += 1.0L, carried = 1;
+    if (is_shortened)
+    {
+        /* X is the exponent of the *rounded* value: a rounding carry into a
+         * new leading digit (the value is then an exact power of the base)
+         * costs one fraction digit and may cross the limit between the styles */
+        if (!with_exp && (r != 0.0L) &&
+            ((ep >= -1.0L) ? (ip >= POW(base, ep + 1.0L))
+                           : (fp >= POW(base, sign_count + ep + 1.0L))))
+        {
+            ep += 1.0L;
+            if (ep >= g_digits)
+            {
+                with_exp = 1;
+                ip = 1.0L;
+                fp = 0.0L;
+                sign_count = 0;
+                precision = g_digits - 1;
+            }
+            else
+            {
+                if (precision > 0)
+                    --precision;
+                if (sign_count > precision)
+                    MODF(fp / base, &fp), --sign_count;
+            }
+        }
+        else if (with_exp && carried && (ep == -4.0L))
+        {
+            with_exp = 0;
+            precision = g_digits - 1 + 4;
+            ip = 0.0L;
+            fp = 1.0L;
+            sign_count = 4;
+        }
+        /* trailing zeros of the fraction are dropped, unless '#' is given */
+        if (!(ops & OPS_FLAG_WITH_SPEC))
+            while ((sign_count > 0) && (FMOD(fp, base) == 0.0L))
+                MODF(fp / base, &fp), --sign_count;
+    }
 
     if (with_exp)
     {
@@ -360,7 +405,9 @@ static int print_f(void (*printchar_handler)(void *d, int c),
 
     len = (int)(end - str);
     postfix_len = (int)strlen(postfix);
-    zero_left = is_shortened ? 0 : precision - sign_count;
+    zero_left = (is_shortened && !(ops & OPS_FLAG_WITH_SPEC))
+                    ? 0
+                    : MAX(precision - sign_count, 0);
     pad_count = MAX(width - prefix_len - len - zero_left - postfix_len, 0);
 
     if (!(ops & (OPS_FLAG_ZERO_PAD | OPS_FLAG_LEFT_ALIGN)))
